@@ -510,3 +510,33 @@ def one_shot_callback_rules(ctx, rule, func, attr):
                 clears.append(n)
     leaks = [n.line for n in calls if g.path_avoiding(n, [g.exit], avoid=clears) is not None]
     ctx.inst(rule, func, 'one-shot:' + attr, bool(calls) and not leaks, 'calls of self.%s at lines %s can leave it installed' % (attr, leaks))
+
+
+def leaves_for_legal_value(func, param, values, kinds=('raise', 'return')):
+    """[(node, value)] - a raise / bare return of ``func`` that is reached for a LEGAL value of ``param``: every branch condition that
+    dominates it can be decided from the value alone and holds.  A condition that cannot be decided from the value (it looks at
+    other state) makes the exit a different matter and is not reported."""
+    from .consteval import UNKNOWN, Scope, fold
+    g = cfg_of(func)
+    out = []
+    for n in g.nodes:
+        if n.kind not in kinds:
+            continue
+        if n.kind == 'return' and n.ast is not None and getattr(n.ast, 'value', None) is not None:
+            continue
+        conds = [e.label for e in g.dominating_edges(n) if e.label and e.label[0] == 'cond']
+        if not conds:
+            continue
+        if not all(any(isinstance(x, ast.Name) and x.id == param for x in ast.walk(c[1])) for c in conds):
+            continue
+        if g.reaching_defs(n, param) and any(d is not g.entry for d in g.reaching_defs(n, param)):
+            continue                                   # the parameter was re-bound on the way
+        for v in values:
+            sc = Scope.of(func, {param: v})
+            res = [fold(c[1], sc) for c in conds]
+            if any(r is UNKNOWN for r in res):
+                break
+            if all(bool(r) == bool(c[2]) for r, c in zip(res, conds)):
+                out.append((n, v))
+                break
+    return out
